@@ -5,6 +5,7 @@
 import CstModel.Model.Tree
 import CstModel.Model.Query
 import CstModel.Model.SyntaxText
+import CstModel.Model.Conc
 namespace Cst.Drv
 
 structure RState where
@@ -29,6 +30,8 @@ structure DState where
   idMap : List (Nat × Nat) := []
   red : RState := {}
   views : Array (Nat × Red.View) := #[]
+  conc : Option Conc.Sys := none
+  concFrees : Nat := 0
   /-- debug-abbreviation window of `SyntaxToken::write_debug` (from SourceFacts) -/
   dbgWindow : Nat × Nat × Nat := (25, 21, 25)
 
@@ -38,7 +41,7 @@ def DState.cfg (s : DState) : Cfg :=
 
 def DState.resetCase (s : DState) : DState :=
   { s with interners := #[], caches := #[], builder := none, failNext := false, cps := #[],
-           greens := #[], idMap := [], red := {}, views := #[] }
+           greens := #[], idMap := [], red := {}, views := #[], conc := none, concFrees := 0 }
 
 /-- parse `<prefix><n>` -/
 def parseRef (pfx : Char) (s : String) : Option Nat :=
